@@ -117,6 +117,10 @@ def run_case(E, mod, case, rng):
         I.no_contract_for = saved_no
     nat = fw.native_run_harness([{"harness": case.harness, "params": tree, "overrides": case.overrides}])[0]
     nat_o = (nat["outcome"], nat["detail"].split(":")[0] if nat["outcome"] == "exception" else nat["detail"])
+    if nat_o[0] == "assumption-failed" and sym[0] != "assumption-failed":
+        # the native side materialises at most a few dozen elements of a list of symbolic length: a pinned length / position beyond that cap fails the
+        # harness's own range assumption natively although the pinned symbolic input satisfies it -- the two runs are not on the same input: skipped
+        return "skipped", f"native input was capped (symbolic: {sym[0]})"
     ok = sym[0] == nat_o[0] and (sym[0] != "violation" or sym[1] == nat_o[1]) and (sym[0] != "exception" or sym[1] == nat_o[1].split(".")[-1])
     return ("agree" if ok else "DISAGREE"), {"symbolic": sym, "native": nat_o, "inputs": {k: solve.model_value(m, v) for k, v in B.symbols.items() if not z3.is_array(v)}}
 
